@@ -405,7 +405,7 @@ func cmdCheck(args []string) int {
 	}
 
 	// native replay
-	replayed, outText, err := nativeReplay(prog, entries, 120*time.Second)
+	replayed, outText, err := nativeReplay(prog, entries, 300*time.Second)
 	if err != nil {
 		problems = append(problems, "native replay: "+err.Error())
 	}
